@@ -288,6 +288,21 @@ def mapping(repo: Repo, chk: Check) -> None:
         ttxt = prov_text(f, tv, c) if tv is not None else ""
         okt = ttxt in (f"str({var}.target).rstrip('.')", f"str({var}.target).removesuffix('.')", f"{var}.target.to_text().rstrip('.')", f"{var}.target.to_text(omit_final_dot=True)")
         chk.ob("O3", site, okt, "target = text of the record target without trailing dot" if okt else f"SrvRecord.target is '{ttxt}': the trailing dot must be stripped only if present and nothing else removed")
+    # a record kept under a key can be replaced by a later record with the same key: then not every record is ranked
+    for n in body_nodes(f.node):
+        keyed: t.Optional[ast.expr] = None
+        if isinstance(n, ast.Assign) and any(isinstance(tg, ast.Subscript) for tg in n.targets) and any(x in ctors for x in ast.walk(n.value)):
+            keyed = next(tg for tg in n.targets if isinstance(tg, ast.Subscript)).slice
+        elif isinstance(n, ast.Call) and isinstance(n.func, ast.Attribute) and n.func.attr in ("setdefault", "update", "__setitem__") and any(x in ctors for a in list(n.args) + [k.value for k in n.keywords] for x in ast.walk(a)):
+            keyed = n.args[0] if n.args else n.func.value
+        if keyed is None:
+            continue
+        idx_vars = set()
+        for lp in loops:
+            if isinstance(lp.iter, ast.Call) and unparse(lp.iter.func) == "enumerate" and isinstance(lp.target, ast.Tuple) and lp.target.elts and isinstance(lp.target.elts[0], ast.Name):
+                idx_vars.add(lp.target.elts[0].id)
+        okk = isinstance(keyed, ast.Name) and keyed.id in idx_vars
+        chk.ob("O3", Site.of(f, n, f"records stored under key {unparse(keyed)[:60]}"), okk, "keyed by the position in the answer" if okk else f"records are collected under the key {unparse(keyed)[:60]}: a record with the same key replaces (or is dropped in favour of) another one, so the record returned need not be the best of all answers and depends on their order")
     # the ranked collection is the list these records were appended to
     apps = [n for n in body_nodes(f.node) if isinstance(n, ast.Call) and isinstance(n.func, ast.Attribute) and n.func.attr == "append" and any(x is ctors[0] for x in ast.walk(n))]
     rets = [n for n in body_nodes(f.node) if isinstance(n, ast.Return) and n.value is not None]
